@@ -45,15 +45,102 @@ def _run_one(args):
         return (name, 'crash', traceback.format_exc()[-300:])
 
 
+def _parse_patch(text):
+    """unified diff -> {repo relative path: [(old block, new block), ...]} (context lines included on both sides)"""
+    files = {}
+    cur = None
+    old, new = [], []
+
+    def flush():
+        if cur is not None and (old or new):
+            files.setdefault(cur, []).append(('\n'.join(old), '\n'.join(new)))
+    for line in text.splitlines():
+        if line.startswith('+++ '):
+            flush()
+            old, new = [], []
+            cur = line[4:].strip()
+            cur = cur[2:] if cur.startswith('b/') else cur
+        elif line.startswith('--- ') or line.startswith('diff ') or line.startswith('index '):
+            continue
+        elif line.startswith('@@'):
+            flush()
+            old, new = [], []
+        elif cur is not None:
+            if line.startswith('+'):
+                new.append(line[1:])
+            elif line.startswith('-'):
+                old.append(line[1:])
+            elif line.startswith(' ') or line == '':
+                old.append(line[1:])
+                new.append(line[1:])
+    flush()
+    return files
+
+
+def _run_seeded(args):
+    prop, modname, name, patch_path = args
+    import importlib
+    from .model import Program, AnalysisError
+    from .core import Report, load_known
+    try:
+        mod = importlib.import_module(modname)
+        base = Program()
+        overrides = {}
+        for rel, hunks in _parse_patch(open(patch_path).read()).items():
+            parts = rel[:-3].split('/')
+            if parts[0] == 'src':
+                parts = parts[1:]
+            if parts[-1] == '__init__':
+                parts = parts[:-1]
+            m = '.'.join(parts)
+            if m not in base.modules:
+                return (name, 'skipped', 'module %s not analysed' % m)
+            src = overrides.get(m, base.modules[m].source)
+            for o, n in hunks:
+                if src.count(o) != 1:
+                    return (name, 'skipped', 'hunk context occurs %d times in %s (tree has moved on)' % (src.count(o), m))
+                src = src.replace(o, n)
+            overrides[m] = src
+        prog = Program(overrides=overrides)
+        rep = Report(prop, prog)
+        try:
+            mod.run(rep, prog, 'quick')
+        except AnalysisError as e:
+            return (name, 'analysis-error', str(e)[:200])
+        known = {(k['rule'], k['key']) for k in load_known() if k.get('property') == prop and k.get('status') == 'known'}
+        fails = [f for f in rep.failures if (f.rule, f.key) not in known]
+        if fails:
+            return (name, 'killed', '%s: %s' % (fails[0].rule, fails[0].message[:160]))
+        if rep.deficits:
+            return (name, 'analysis-error', rep.deficits[0][:200])
+        return (name, 'survived', '')
+    except Exception:
+        return (name, 'crash', traceback.format_exc()[-300:])
+
+
+def seeded_args(prop, mod):
+    here = os.path.dirname(os.path.dirname(os.path.abspath(__file__)))
+    d = os.path.join(here, 'seeded', prop)
+    out = []
+    if os.path.isdir(d):
+        for n in sorted(os.listdir(d)):
+            pth = os.path.join(d, n, 'patch.diff')
+            if os.path.exists(pth):
+                out.append((prop, mod.__name__, 'seeded/%s/%s' % (prop, n), pth))
+    return out
+
+
 def run_selftest(prop, mod, jobs=None):
     muts = getattr(mod, 'MUTANTS', [])
     t0 = time.time()
     jobs = jobs or min(16, max(1, len(muts)))
     args = [(prop, mod.__name__, m) for m in muts]
-    if not args:
+    sargs = seeded_args(prop, mod)
+    if not args and not sargs:
         return {'mutants': 0}
     with multiprocessing.Pool(jobs) as pool:
-        res = pool.map(_run_one, args)
+        res = pool.map(_run_one, args) if args else []
+        sres = pool.map(_run_seeded, sargs) if sargs else []
     out = {'mutants': len(res),
            'killed': sum(1 for r in res if r[1] == 'killed'),
            'killed_by_other_rule': sum(1 for r in res if r[1] == 'killed-other'),
@@ -62,7 +149,14 @@ def run_selftest(prop, mod, jobs=None):
            'skipped': [r[0] for r in res if r[1] == 'skipped'],
            'crashed': [r[0] for r in res if r[1] == 'crash'],
            'details': [{'mutant': r[0], 'result': r[1], 'by': r[2]} for r in res],
+           'seeded_changes': {'total': len(sres), 'detected': sum(1 for r in sres if r[1] == 'killed'),
+                              'missed': [r[0] for r in sres if r[1] == 'survived'],
+                              'not_applicable_any_more': [r[0] for r in sres if r[1] in ('skipped',)],
+                              'details': [{'change': r[0], 'result': r[1], 'by': r[2]} for r in sres]},
            'wall_s': round(time.time() - t0, 2)}
+    if sres:
+        print('self-test %s: %d seeded changes applied in memory, %d detected, missed %s, skipped %s' % (
+            prop, len(sres), out['seeded_changes']['detected'], out['seeded_changes']['missed'], out['seeded_changes']['not_applicable_any_more']))
     print('self-test %s: %d mutants, %d killed, %d by another rule, %d analysis-error, survived %s, skipped %s, crashed %s' % (
         prop, out['mutants'], out['killed'], out['killed_by_other_rule'], out['analysis_error'],
         out['survived'], out['skipped'], out['crashed']))
